@@ -383,6 +383,10 @@ package task
 //@   ensures result.1 != nil ==> dyn(result.1) == type(*errors.TaskNameConflictError) || dyn(result.1) == type(*errors.TaskNotFoundError)   [C15]
 
 // Suggestions for unknown names come from a model trained on every task name and alias.
+// the words the model learns are the task NAMES (the keys of the task table) and the aliases
+//@ func (*Executor).setupFuzzyModel$1
+//@   site append#1 requires arg1[0] == name                                                                            [C15]
+//@   site slices.Concat#1 requires arg0[1] == task.Aliases                                                             [C15]
 //@ func (*Executor).setupFuzzyModel
 //@   ensures e.Taskfile != nil ==> e.fuzzyModel != nil                                                                 [C15]
 
@@ -390,12 +394,17 @@ package task
 //@ guarded_by Executor.executionHashes Executor.executionHashesMutex                                               [C18]
 //@ guarded_by Compiler.dynamicCache Compiler.muDynamicCache                                                        [C18]
 
+// ---- C11: a dynamic variable is looked up, evaluated and recorded in ONE critical section, so that tasks
+// asking for the same sh: text concurrently get the same value as when they run alone
+//@ func (*Compiler).HandleDynamicVar
+//@   site execext.RunCommand#1 requires held(c.muDynamicCache)                                                 [C11,C18]
+
 // ---- C11: compiling a task builds a fresh object graph ---------------------------------------------------
 // Every command, dependency and precondition put into the compiled task is a copy made during this call (so
 // that templating it, or the lazy templating of deferred commands, never writes into the task definition),
 // and the compiled task itself is a new object.
 //@ func (*Executor).compiledTask
-//@   site append requires fresh(arg1[0])                                                                       [C11,C18]
+//@   site append requires fresh(arg1[0])                                                                       [C11,C18,C14]
 // every command put into the compiled task (one per loop item, deferred, plain) keeps the attributes that
 // decide how its failure and its output are treated
 //@   site append#1 requires arg1[0].IgnoreError == cmd.IgnoreError && arg1[0].Silent == cmd.Silent && arg1[0].Defer == cmd.Defer   [C03,C02,C14]
